@@ -473,9 +473,13 @@ def index_of_refraction(compound, density=None, natural_density=None,
         wavelength = xray_wavelength(energy)
     assert wavelength is not None, "scattering calculation needs energy or wavelength"
     wavelength = numpy.asarray(wavelength)  # accept a list, as energy= does
+    # Look the scattering factors up at the energy that was asked for: going
+    # through the wavelength and back can move it by one ulp, which at the
+    # first or last energy of a table is outside the table.
+    beam = {'wavelength': wavelength} if energy is None else {'energy': energy}
     f1, f2 = xray_sld(compound,
                       density=density, natural_density=natural_density,
-                      wavelength=wavelength)
+                      **beam)
     return 1 - wavelength**2/(2*pi)*(f1 + f2*1j)*1e-6
 
 @require_keywords
@@ -511,15 +515,17 @@ def mirror_reflectivity(compound, density=None, natural_density=None,
     against http://henke.lbl.gov/optical_constants/mirror2.html
     """
     if energy is not None:
+        energy = numpy.atleast_1d(energy)  # scalar, list or array
         wavelength = xray_wavelength(energy)
     assert wavelength is not None, "scattering calculation needs energy or wavelength"
     angle = radians(angle)
     wavelength = numpy.atleast_1d(wavelength)  # scalar, list or array
     if numpy.isscalar(angle):
         angle = numpy.array([angle])
+    beam = {'wavelength': wavelength} if energy is None else {'energy': energy}
     nv = index_of_refraction(compound=compound,
                              density=density, natural_density=natural_density,
-                             wavelength=wavelength)
+                             **beam)
     ki = 2*pi/wavelength[None, :] * sin(angle[:, None])
     kf = 2*pi/wavelength[None, :] * sqrt(nv[None, :]**2 - cos(angle[:, None])**2)
     r = (ki-kf)/(ki+kf)*exp(-2*ki*kf*roughness**2)
